@@ -295,7 +295,7 @@ where
 //@     (b != 0x0D && b != 0x0A) ==> final(processor).calls() == old(processor).calls(),   // [C01]
 //@     final(processor).calls() == old(processor).calls()
 //@         || (nul_free(old(self).line_bytes()) ==> (dispatch_of(old(self).line_bytes(), feat_help()) matches Some(x)
-//@             && final(processor).calls() == old(processor).calls().push(x))),   // [C01,C12,C07]
+//@             && final(processor).calls() == old(processor).calls().push(x))),   // [C01,C12,~C07]
 //@     // C06: whatever byte arrives, afterwards the terminal again shows the prompt followed by the edited line with the
 //@     // cursor at the editor's cursor (prompt and line being printable text; DEL and a non-printable prompt are outside)
 //@     r is Ok && old(self).displayed() && final(self).printable_state() ==> final(self).displayed(),   // [C06]
@@ -500,7 +500,7 @@ where
 
     fn on_text_input(&mut self, editor: &mut Editor<CommandBuffer>, text: &str) -> Result<(), E> {
 //@ requires old(editor).wf(), text@.len() == 1,
-//@ ensures final(editor).wf(), final(editor).cap() == old(editor).cap(), final(self).rest_eq(old(self)),   // [C01,C02,C03,C05,C06,C11,C14,C17]
+//@ ensures final(editor).wf(), final(editor).cap() == old(editor).cap(), final(self).rest_eq(old(self)),   // [~C01,~C02,C03,~C05,~C06,~C11,C14,~C17]
 //@     // C05/C14: the edit does not depend on the sink: the character goes in at the cursor iff it fits
 //@     ({ let fits = old(editor).line_bytes().len() + text.spec_bytes().len() <= old(editor).cap();
 //@        let c = old(editor).cur() as int; let l = old(editor).line();
@@ -564,7 +564,7 @@ where
         processor: &mut P,
     ) -> Result<(), E> {
 //@ requires old(editor).wf(), old(self).wf_inner(),
-//@ ensures final(editor).wf(), final(self).wf_inner(), final(editor).cap() == old(editor).cap(),   // [C14,C03,C01,C02,C05,C06,C11,C17]
+//@ ensures final(editor).wf(), final(self).wf_inner(), final(editor).cap() == old(editor).cap(),   // [C14,C03,~C01,~C02,~C05,~C06,~C11,~C17]
 //@     final(self).editor == old(self).editor, final(self).input_generator == old(self).input_generator,
 //@     r is Ok ==> final(self).sink_ok(old(self)),   // [C14,C15]
 //@     // C01: no key but Enter invokes the handler
@@ -579,12 +579,12 @@ where
 //@     // C01: Enter invokes it at most once and only with the tokens of the line as it stood
 //@     control is Enter ==> (final(processor).calls() == old(processor).calls()
 //@         || (nul_free(old(editor).line_bytes()) ==> (dispatch_of(old(editor).line_bytes(), feat_help()) matches Some(x)
-//@             && final(processor).calls() == old(processor).calls().push(x)))),   // [C01,C12,C07]
+//@             && final(processor).calls() == old(processor).calls().push(x)))),   // [C01,C12,~C07]
 //@     // C01: when nothing failed, it is invoked exactly when the line has a token and is not a help request;
 //@     // afterwards the line is empty and a fresh prompt has been printed
 //@     control is Enter && r is Ok && nul_free(old(editor).line_bytes()) ==>
 //@         final(processor).calls() == (match dispatch_of(old(editor).line_bytes(), feat_help()) {
-//@             Some(x) => old(processor).calls().push(x), None => old(processor).calls() }),   // [C01,C12,C07]
+//@             Some(x) => old(processor).calls().push(x), None => old(processor).calls() }),   // [C01,C12,~C07]
 //@     control is Enter && r is Ok ==> final(editor).line_bytes() == Seq::<u8>::empty() && final(editor).cur() == 0
 //@         && final(self).writer.evs().len() >= 2
 //@         && final(self).writer.evs()[final(self).writer.evs().len() - 2] == Ev::W(final(self).prompt.spec_bytes()),   // [C01]
@@ -595,21 +595,21 @@ where
 //@     // character and stop at the ends -- whatever the sink does
 //@     control is Backspace ==> ({ let l = old(editor).line(); let c = old(editor).cur() as int;
 //@         &&& c > 0 ==> final(editor).line() == l.remove(c - 1) && final(editor).cur() == c - 1
-//@         &&& c == 0 ==> final(editor).line() == l && final(editor).cur() == 0 }),   // [C05,C01,C17]
+//@         &&& c == 0 ==> final(editor).line() == l && final(editor).cur() == 0 }),   // [C05,~C01,C17]
 //@     control is Back ==> final(editor).line_bytes() == old(editor).line_bytes()
-//@         && final(editor).cur() == (if old(editor).cur() > 0 { old(editor).cur() - 1 } else { 0 }) as nat,   // [C05,C01]
+//@         && final(editor).cur() == (if old(editor).cur() > 0 { old(editor).cur() - 1 } else { 0 }) as nat,   // [C05,~C01]
 //@     control is Forward ==> final(editor).line_bytes() == old(editor).line_bytes()
-//@         && final(editor).cur() == (if old(editor).cur() < old(editor).line().len() { old(editor).cur() + 1 } else { old(editor).cur() }),   // [C05,C01]
+//@         && final(editor).cur() == (if old(editor).cur() < old(editor).line().len() { old(editor).cur() + 1 } else { old(editor).cur() }),   // [C05,~C01]
 //@     // C10 at the session level: Up / Down recall submitted lines (see navigate_history), Enter records the line as
 //@     // submitted (byte for byte, before tokenisation), every other key leaves the history alone
 //@     feat_history() && control is Up ==> final(self).hist_entries() == old(self).hist_entries()
 //@         && (match nav_older(old(self).hist_entries().len() as int, old(self).hist_nav()) {
 //@             Some(t) => final(editor).line_bytes() == (if old(self).hist_entries()[t].len() <= old(editor).cap() { old(self).hist_entries()[t] } else { Seq::<u8>::empty() }),
-//@             None => final(editor).line_bytes() == old(editor).line_bytes() && final(editor).cur() == old(editor).cur() }),   // [C10,C01]
+//@             None => final(editor).line_bytes() == old(editor).line_bytes() && final(editor).cur() == old(editor).cur() }),   // [C10,~C01]
 //@     feat_history() && control is Down ==> final(self).hist_entries() == old(self).hist_entries()
 //@         && (match nav_newer(old(self).hist_entries().len() as int, old(self).hist_nav()) {
 //@             Some(t) => final(editor).line_bytes() == (if old(self).hist_entries()[t].len() <= old(editor).cap() { old(self).hist_entries()[t] } else { Seq::<u8>::empty() }),
-//@             None => final(editor).line_bytes() == Seq::<u8>::empty() }),   // [C10,C01]
+//@             None => final(editor).line_bytes() == Seq::<u8>::empty() }),   // [C10,~C01]
 //@     feat_history() && control is Enter && r is Ok ==> ({
 //@         let l = old(editor).line_bytes(); let es = old(self).hist_entries(); let hc = old(self).hist_cap();
 //@         &&& recordable(l, hc) ==> final(self).hist_entries() == hist_push(es, l, hc) && final(self).hist_nav() is None
@@ -703,10 +703,10 @@ where
         dir: NavigateInput,
     ) -> Result<(), E> {
 //@ requires old(editor).wf(),
-//@ ensures final(editor).wf(), final(editor).cap() == old(editor).cap(), final(self).rest_eq(old(self)),   // [C01,C02,C03,C05,C06,C11,C14,C17]
+//@ ensures final(editor).wf(), final(editor).cap() == old(editor).cap(), final(self).rest_eq(old(self)),   // [~C01,~C02,C03,~C05,~C06,~C11,C14,~C17]
 //@     final(editor).line_bytes() == old(editor).line_bytes(),   // [C05]
-//@     dir is Backward ==> final(editor).cur() == (if old(editor).cur() > 0 { old(editor).cur() - 1 } else { 0 }) as nat,   // [C05,C01]
-//@     dir is Forward ==> final(editor).cur() == (if old(editor).cur() < old(editor).line().len() { old(editor).cur() + 1 } else { old(editor).cur() }),   // [C05,C01]
+//@     dir is Backward ==> final(editor).cur() == (if old(editor).cur() > 0 { old(editor).cur() - 1 } else { 0 }) as nat,   // [C05,~C01]
+//@     dir is Forward ==> final(editor).cur() == (if old(editor).cur() < old(editor).line().len() { old(editor).cur() + 1 } else { old(editor).cur() }),   // [C05,~C01]
 //@     r is Ok ==> final(self).sink_ok(old(self)),   // [C14,C15]
 //@     // C06: the terminal cursor follows the editor cursor, and stays where it is at the ends of the line
 //@     r is Ok && old(self).disp(old(editor)) ==> final(self).disp(final(editor)),   // [C06]
@@ -733,7 +733,7 @@ where
         dir: NavigateHistory,
     ) -> Result<(), E> {
 //@ requires old(editor).wf(), old(self).wf_inner(),
-//@ ensures final(editor).wf(), final(self).wf_inner(), final(editor).cap() == old(editor).cap(),   // [C01,C02,C03,C05,C06,C11,C14,C17]
+//@ ensures final(editor).wf(), final(self).wf_inner(), final(editor).cap() == old(editor).cap(),   // [~C01,~C02,C03,~C05,~C06,~C11,C14,~C17]
 //@     final(self).editor == old(self).editor, final(self).input_generator == old(self).input_generator, final(self).prompt == old(self).prompt,
 //@     r is Ok ==> final(self).sink_ok(old(self)),   // [C14,C15]
 //@     // C06: a recalled line (or the empty line past the newest) replaces what the terminal showed; otherwise nothing changes
@@ -750,7 +750,7 @@ where
 //@                    && final(editor).cur() == old(editor).cur() })
 //@        &&& dir is Newer ==> final(self).hist_nav() == nav_newer(n, nav) && (match nav_newer(n, nav) {
 //@                Some(t) => final(editor).line_bytes() == (if es[t].len() <= cap { es[t] } else { Seq::<u8>::empty() }),
-//@                None => final(editor).line_bytes() == Seq::<u8>::empty() }) }),   // [C10,C01]
+//@                None => final(editor).line_bytes() == Seq::<u8>::empty() }) }),   // [C10,~C01]
         let history_elem = match dir {
             NavigateHistory::Older => self.history.next_older(),
             NavigateHistory::Newer => self.history.next_newer().or(Some("")),
@@ -759,7 +759,7 @@ where
 //@ let ghost eb = element.spec_bytes();
             editor.clear();
             editor.insert(element);
-//@ proof {   // [C10,C01]
+//@ proof {   // [C10,~C01]
 //@     broadcast use lemma_str_view_bytes;
 //@     if eb.len() <= editor.cap() {
 //@         assert(Seq::<char>::empty().subrange(0, 0) + element@ + Seq::<char>::empty().subrange(0, 0) =~= element@);
@@ -797,7 +797,7 @@ where
         editor: &mut Editor<CommandBuffer>,
     ) -> Result<(), E> {
 //@ requires old(editor).wf(),
-//@ ensures final(editor).wf(), final(editor).cap() == old(editor).cap(), final(self).rest_eq(old(self)),   // [C01,C02,C03,C05,C06,C11,C14,C17]
+//@ ensures final(editor).wf(), final(editor).cap() == old(editor).cap(), final(self).rest_eq(old(self)),   // [~C01,~C02,C03,~C05,~C06,~C11,C14,~C17]
 //@     r is Ok ==> final(self).sink_ok(old(self)),   // [C14,C15]
 //@     // C11 (top level): Tab on a line that is a single partially typed word (up to the blanks right of the cursor)
 //@     // extends it by what the names of C plus the built-in `help` that start with the word have in common --
@@ -971,7 +971,7 @@ where
 //@     final(handler).calls() == (
 //@         if tokens.view().len() == 0 { old(handler).calls() }
 //@         else if feat_help() && wants_help(tokens.view()[0], tokens.view().drop_first()) { old(handler).calls() }
-//@         else { old(handler).calls().push((tokens.view()[0], tokens.view().drop_first())) }),   // [C01,C12,C07]
+//@         else { old(handler).calls().push((tokens.view()[0], tokens.view().drop_first())) }),   // [C01,C12,~C07]
 //@     r is Ok ==> final(self).sink_ok(old(self)),   // [C14,C15]
 //@     r is Ok && is_fresh(term_run(old(self).writer.evs())) ==> is_fresh(term_run(final(self).writer.evs())),   // [C06,C13]
         if let Some(command) = RawCommand::from_tokens(&tokens) {
